@@ -557,6 +557,9 @@ class TreeMod(roundtrip.RTMod):
                     if items is None:
                         out.append((OK, unk("drain"), s))
                         continue
+                    if m == "collect" and isinstance(n, dict) and n.get("ty") == "alloc::string::String":
+                        out.extend(super().intrinsic(I, c, [("abs", "siter", tuple(items), 0)] + list(args[1:]), s, n) or [(OK, unk("collect-string"), s)])
+                        continue
                     if m == "count":
                         out.append((OK, hirai.mkint(len(items)), s))
                     elif m == "collect":
